@@ -172,7 +172,7 @@ def ref_lex(e, chars, cat):
     return out
 
 
-def h_lex(e, L, table='default', re_alpha=None, nre=0, prefix='', lets=False, re_codes=None):
+def h_lex(e, L, table='default', re_alpha=None, nre=0, prefix='', lets=False, re_codes=None, re_codes2=None):
     doc = TeXDocument()
     ctx = doc.context
     if table == 'atletter':
@@ -185,6 +185,8 @@ def h_lex(e, L, table='default', re_alpha=None, nre=0, prefix='', lets=False, re
         code = e.int('recode%d' % k, 0, 15)
         if re_codes is not None:
             e.assume(e.one_of(code, re_codes))
+        if re_codes2 is not None and k == 1:
+            e.assume(e.one_of(code, re_codes2))
         ctx.catcode(ch, code)
         code = e.concretize(code.z) if e.symbolic else code
         overrides.append((ch, code))
@@ -225,9 +227,9 @@ def jobs(tier, seed):
         J.append(dict(harness='h_lex', params=dict(L=3), split=14, label='default L=3'))
         J.append(dict(harness='h_lex', params=dict(L=3, table='atletter'), split=14, label='atletter L=3'))
         J.append(dict(harness='h_lex', params=dict(L=3, table='verbatim'), split=4, label='verbatim L=3'))
-        J.append(dict(harness='h_lex', params=dict(L=2, re_alpha=ALPHA7, nre=1), split=2, label='1 reassignment L=2'))
-        J.append(dict(harness='h_lex', params=dict(L=3, re_alpha=['a'], nre=1, re_codes=[0, 5, 7, 9, 14, 15]), split=8, label="'a' reassigned to a special class L=3"))
-        J.append(dict(harness='h_lex', params=dict(L=2, re_alpha=['a'], nre=2), split=4, label='same character reassigned twice L=2'))
+        J.append(dict(harness='h_lex', params=dict(L=2, re_alpha=ALPHA7, nre=1), split=30, label='1 reassignment L=2'))
+        J.append(dict(harness='h_lex', params=dict(L=3, re_alpha=['a'], nre=1, re_codes=[0, 7, 14]), split=30, label="'a' reassigned to escape/superscript/comment L=3"))
+        J.append(dict(harness='h_lex', params=dict(L=2, re_alpha=['a'], nre=2, re_codes2=[12, 11]), split=48, label='same character reassigned twice (then other/letter) L=2'))
         for p in STATE_PREFIXES:
             J.append(dict(harness='h_lex', params=dict(L=2, prefix=p), label='state-prefix %r L=2' % p))
         J.append(dict(harness='h_lex', params=dict(L=2, prefix='\\ab', lets=True), label='let alias L=2'))
@@ -235,9 +237,9 @@ def jobs(tier, seed):
         J.append(dict(harness='h_lex', params=dict(L=4), split=28, label='default L=4'))
         J.append(dict(harness='h_lex', params=dict(L=4, table='atletter'), split=28, label='atletter L=4'))
         J.append(dict(harness='h_lex', params=dict(L=4, table='verbatim'), split=4, label='verbatim L=4'))
-        J.append(dict(harness='h_lex', params=dict(L=3, re_alpha=ALPHA13, nre=1), split=3, label='1 reassignment L=3'))
-        J.append(dict(harness='h_lex', params=dict(L=2, re_alpha=ALPHA7, nre=2), split=4, label='2 reassignments L=2'))
-        J.append(dict(harness='h_lex', params=dict(L=3, re_alpha=['a'], nre=2), split=6, label='same character reassigned twice L=3'))
+        J.append(dict(harness='h_lex', params=dict(L=3, re_alpha=ALPHA13, nre=1), split=34, label='1 reassignment L=3'))
+        J.append(dict(harness='h_lex', params=dict(L=2, re_alpha=ALPHA7, nre=2), split=52, label='2 reassignments L=2'))
+        J.append(dict(harness='h_lex', params=dict(L=3, re_alpha=['a'], nre=2), split=52, label='same character reassigned twice L=3'))
         for p in STATE_PREFIXES:
             J.append(dict(harness='h_lex', params=dict(L=3, prefix=p), split=14, label='state-prefix %r L=3' % p))
         J.append(dict(harness='h_lex', params=dict(L=3, prefix='\\ab', lets=True), label='let alias L=3'))
